@@ -36,9 +36,34 @@ func (c *Ctx) identityHashCapture(rel, name string) {
 	}
 	prm := ssa.Value(f.Params[1])
 	// when closures capture the parameter it lives in a heap slot: loads of that slot are the parameter
-	isCell := func(v ssa.Value) bool {
+	var isCell func(v ssa.Value) bool
+	isCell = func(v ssa.Value) bool {
 		if v == prm {
 			return true
+		}
+		// the parameter of an unexported helper that every call site in this function hands the cell to
+		// (decoder.cellHash(c))
+		if hp, ok := v.(*ssa.Parameter); ok && hp.Parent() != f {
+			if h := plainHelper(hp.Parent()); h != nil && !gAddrTaken[h] {
+				idx := -1
+				for i, q := range h.Params {
+					if q == hp {
+						idx = i
+					}
+				}
+				n := 0
+				for _, site := range gCallSites[h] {
+					if site.Parent() != f {
+						continue
+					}
+					args := site.Common().Args
+					if idx < 0 || idx >= len(args) || !isCell(args[idx]) {
+						return false
+					}
+					n++
+				}
+				return n > 0
+			}
 		}
 		if u, ok := v.(*ssa.UnOp); ok && u.Op == token.MUL {
 			if al, ok := u.X.(*ssa.Alloc); ok {
@@ -89,8 +114,32 @@ func (c *Ctx) identityHashCapture(rel, name string) {
 	// both branches hash the parameter: every call to Hasher.Hash / Cell.Hash in f is on the parameter
 	okBoth := true
 	n := 0
-	for _, q := range []string{bocPath + ".Hasher.Hash", bocPath + ".Cell.Hash"} {
-		for _, cl := range callsTo(f, q) {
+	// ... in the function, or in the unexported helper it hands the cell to
+	hashFns := []*ssa.Function{f}
+	for _, ci := range callsIn(f) {
+		if h := plainHelper(ci.Common().StaticCallee()); h != nil && h != f {
+			for _, a := range ci.Common().Args {
+				if isCell(a) {
+					hashFns = append(hashFns, h)
+					break
+				}
+			}
+		}
+	}
+	var hashCalls []*ssa.Call
+	seenFn := map[*ssa.Function]bool{}
+	for _, g := range hashFns {
+		if seenFn[g] {
+			continue
+		}
+		seenFn[g] = true
+		for _, q := range []string{bocPath + ".Hasher.Hash", bocPath + ".Cell.Hash"} {
+			hashCalls = append(hashCalls, callsTo(g, q)...)
+		}
+	}
+	for _, cl := range hashCalls {
+		q := callQName(&cl.Call)
+		{
 			n++
 			a := cl.Call.Args[0]
 			if q == bocPath+".Hasher.Hash" {
